@@ -243,6 +243,7 @@ impl PlugCommand {
             bytes = wasmprinter::print_bytes(&bytes)
                 .context("failed to convert binary wasm output to text")?
                 .into_bytes();
+            bytes.push(b'\n');
         }
         match &self.output {
             Some(path) => {
@@ -256,10 +257,6 @@ impl PlugCommand {
                 std::io::stdout()
                     .write_all(&bytes)
                     .context("failed to write to stdout")?;
-
-                if self.wat {
-                    println!();
-                }
             }
         }
         Ok(())
